@@ -502,7 +502,7 @@ def run(ctx):
     base = os.path.join(os.environ.get("VT_SCRATCH", "/var/tmp/c32-scratch"), "sc")
     allow_chown = hx.chown_works()
     # spawning is the expensive part (about a second per external command on a loaded machine)
-    n_inst, n_fb, n_misc, n_fault = ctx.budget(12, 160), ctx.budget(3, 60), ctx.budget(5, 80), ctx.budget(4, 50)
+    n_inst, n_fb, n_misc, n_fault = ctx.budget(12, 150), ctx.budget(3, 50), ctx.budget(5, 70), ctx.budget(4, 45)
     max_k = ctx.budget(4, 0)
     n_blk, n_walk, n_sym = ctx.budget(2, 30), ctx.budget(3, 40), ctx.budget(4, 40)
     total = n_inst + n_fb + n_misc + n_fault + n_blk + n_walk + n_sym
